@@ -8,6 +8,7 @@
 //  trace   : TraceAssembler facet selection (add_facet / compile / clear) -> trace_quad.cpp
 //  bg/bgsd : Burgers operator, classic assembler and domain-assembler jobs (blocked and scalar) -> burgers.hpp
 //  ferec   : only what the real cell loop hands to the scatter object (first call of the process)
+//  flocal  : the local matrices / vectors of that recording (compared with the model's cubature sums over C15's basis)
 //  hist(j) : five requests [warm-up, real, warm-up, real, real] in ONE process, classic (hist) or job route (histj)
 //  feasm   : the classic assembler once more, printing only the matrix (compared with the model's fold)
 #include "burgers.hpp"
@@ -145,7 +146,8 @@ namespace
 
   void show_matrix(std::ostream& o, const MatrixQ& m)
   {
-    o << "M "; show_csr_pattern(o, m); o << " "; show_q(o, m.val(), m.used_elements());
+    o << "M "; show_csr_pattern(o, m); o << " ";
+    if(m.used_elements() == 0) o << "0"; else show_q(o, m.val(), m.used_elements());
   }
 }
 
@@ -264,10 +266,10 @@ static void handle(const verif::Tokens& t, std::ostream& o)
     }
     show_matrix(o, m);
   }
-  else if(op == "fe" || op == "feasm" || op == "ferec" || op == "hist" || op == "histj")
+  else if(op == "fe" || op == "feasm" || op == "ferec" || op == "flocal" || op == "hist" || op == "histj")
   {
     std::string shape = c.str();
-    int full = (op == "fe") ? 1 : (op == "feasm") ? 0 : (op == "ferec") ? 2 : (op == "hist") ? 3 : 5;
+    int full = (op == "fe") ? 1 : (op == "feasm") ? 0 : (op == "ferec") ? 2 : (op == "flocal") ? 6 : (op == "hist") ? 3 : 5;
     if(shape == "line") fe_line(c, o, full);
     else if(shape == "quad") fe_quad(c, o, full);
     else if(shape == "tria") fe_tria(c, o, full);
